@@ -136,4 +136,17 @@ AlphaC2063 == BaseEvs3
    \cup {G(t, "6", m) : t \in {2, 3}, m \in {"6W[", "6W]"}}
    \cup {G(t, "6", m) : t \in {1, 2}, m \in {"6Pr", "6Pp"}}
    \cup {G(3, "6", "6Pa"), G(3, "6", "6Pp")}
+\* trimmed 3-CPU alphabets for the quick tier
+BaseEvs3Q == {E(1, "OHx", <<0, 101, 7>>), E(2, "OHx", <<1, 101, 7>>), E(3, "OHx", <<2, 101, 7>>)}
+             \cup {E(t, "OHe", <<>>) : t \in {1, 2, 3}} \cup {E(2, "OAs", <<0>>)}
+SysC20V3Q == SysC20V3
+AlphaC20V3Q == BaseEvs3Q
+   \cup {J(1, "V", "VYc", <<1, 5>>), A(1, "V", "VTc", <<1, 1>>), A(1, "V", "VTx", <<1, 0>>), A(1, "V", "VTe", <<1, 0>>)}
+   \cup {G(t, "V", m) : t \in {2, 3}, m \in {"VSh", "VSf"}}
+   \cup {G(2, "V", "VPr"), G(2, "V", "VPp"), G(3, "V", "VPa"), G(3, "V", "VPp")}
+SysC2063Q == SysC2063
+AlphaC2063Q == BaseEvs3Q
+   \cup {J(1, "6", "6Yc", <<1, 5>>), A(1, "6", "6Tc", <<1, 1>>), A(1, "6", "6Tx", <<1>>), A(1, "6", "6Te", <<1>>)}
+   \cup {G(t, "6", m) : t \in {2, 3}, m \in {"6W[", "6W]"}}
+   \cup {G(2, "6", "6Pr"), G(2, "6", "6Pp"), G(3, "6", "6Pa"), G(3, "6", "6Pp")}
 =============================================================================
